@@ -193,3 +193,18 @@ SUITES["C11"]["quick"] += [{"family": "world", "mode": "", "share": 1}, {"family
 SUITES["C11"]["thorough"] += [{"family": "world", "mode": "", "share": 1}, {"family": "world", "mode": "addpath", "share": 1}]
 # C20 quick also runs the collision family (its parked-connection leaks were only in C07's and the thorough suites)
 SUITES["C20"]["quick"] += [dict(_CO)]
+
+# C19 RTR stream clause: receive counters vs PDUs sent are compared in the plain rpki mode
+SUITES["C19"]["quick"] += [{"family": "rpki", "mode": "", "share": 1}]
+SUITES["C19"]["thorough"] += [{"family": "rpki", "mode": "", "share": 1}]
+
+# C06's "a well-formed UPDATE is never penalised": the fuzz mode of the wire family has the session variety (2-octet
+# neighbours with AS4_PATH, ADD-PATH, Extended Message) and checks every valid UPDATE it interleaves
+for _t in ("quick", "thorough"):
+    for _s in SUITES["C06"][_t]:
+        _s["share"] = _s.get("share", 1) * 3
+    SUITES["C06"][_t] += [{"family": "wire", "mode": "fuzz", "share": 1}]
+
+# C08 also runs the collision family (the session's parameters come from the OPEN received on the surviving connection)
+SUITES["C08"]["quick"] += [dict(_CO)]
+SUITES["C08"]["thorough"] += [dict(_CO)]
